@@ -181,16 +181,65 @@ def py_check(res):
                 idx = a.targets[0].id
             if isinstance(v, ast.Attribute) and v.attr == "child" and isinstance(v.value, ast.Subscript):
                 child = a.targets[0].id
+    for a in ast.walk(fn):
+        # the child is the object the delete is delegated to
+        if isinstance(a, ast.Call) and isinstance(a.func, ast.Attribute) and a.func.attr == "_del" and \
+                isinstance(a.func.value, ast.Name) and a.func.value.id != "self":
+            child = a.func.value.id
     if idx is None or child is None:
         raise AnalysisError("anchor vanished: index / child locals of _Tree._del")
-    cmp_call = None
-    for c in ast.walk(fn):
-        if isinstance(c, ast.Call) and isinstance(c.func, ast.Name) and c.func.id == "compare" and any(
-                isinstance(x, ast.Attribute) and x.attr == "key" for a in c.args for x in ast.walk(a)):
-            cmp_call = c
+    def find_cmp(f):
+        out = None
+        for c in ast.walk(f):
+            if isinstance(c, ast.Call) and isinstance(c.func, ast.Name) and c.func.id == "compare" and any(
+                    isinstance(x, ast.Attribute) and x.attr == "key" for a in c.args for x in ast.walk(a)):
+                out = c
+        return out
+    cmp_call = find_cmp(fn)
+    outer_conds = []
+    if cmp_call is None:
+        # the refresh factored into a method of the class: follow the call, with the
+        # helper's parameters standing for the caller's index / child
+        members = pyfront.class_members(pyfront.classes(tree)["_Tree"])
+        for call in ast.walk(fn):
+            if isinstance(call, ast.Call) and isinstance(call.func, ast.Attribute) and \
+                    isinstance(call.func.value, ast.Name) and call.func.value.id == "self" and \
+                    isinstance(members.get(call.func.attr), ast.FunctionDef) and find_cmp(members[call.func.attr]):
+                helper = members[call.func.attr]
+                params = [a.arg for a in helper.args.args][1:]
+                amap = dict(zip(params, [pyfront.unparse(a) for a in call.args]))
+                inv = {v: k for k, v in amap.items()}
+                if idx not in inv or child not in inv:
+                    continue          # (the search itself compares separators too)
+                # guards around the call in _del
+                p0 = call
+                while getattr(p0, "_parent", None) is not None and p0 is not fn:
+                    par = p0._parent
+                    if isinstance(par, ast.If) and not any(x is p0 for x in ast.walk(par.test)):
+                        outer_conds.append((par.test, any(x is p0 for b in par.body for x in ast.walk(b)), idx, child))
+                    p0 = par
+                idx, child = inv[idx], inv[child]
+                fn = helper
+                cmp_call = find_cmp(helper)
+                break
     if cmp_call is None:
         raise AnalysisError("anchor vanished: comparison with the separator in _Tree._del")
     conds = []
+    # guard clauses in front of the comparison: `if T: return` makes (not T) a guard
+    stmt = cmp_call
+    while getattr(stmt, "_parent", None) is not None and not isinstance(stmt, ast.stmt):
+        stmt = stmt._parent
+    blk = stmt
+    while getattr(blk, "_parent", None) is not None and blk is not fn:
+        par = blk._parent
+        for field in ("body", "orelse"):
+            seq = getattr(par, field, None)
+            if isinstance(seq, list) and blk in seq:
+                for prev in seq[:seq.index(blk)]:
+                    if isinstance(prev, ast.If) and not prev.orelse and len(prev.body) == 1 and \
+                            isinstance(prev.body[0], ast.Return):
+                        conds.append((prev.test, False))
+        blk = par
     p = cmp_call
     while getattr(p, "_parent", None) is not None and p is not fn:
         par = p._parent
@@ -207,6 +256,14 @@ def py_check(res):
     for i, n in itertools.product(IDX, LEN):
         env = {idx: i, "%s.size" % child: n}
         ok = True
+        for c, pol, oidx, ochild in outer_conds:
+            try:
+                if bool(_pev(c, {oidx: i, "%s.size" % ochild: n}, fn)) != pol:
+                    ok = False
+            except AnalysisError:
+                names = set(pyfront.unparse(x) for x in ast.walk(c) if isinstance(x, (ast.Name, ast.Attribute)))
+                if names & {oidx, "%s.size" % ochild}:
+                    raise
         for c, pol in conds:
             try:
                 if bool(_pev(c, env, fn)) != pol:
